@@ -81,10 +81,31 @@ func genCollValue(r *rand.Rand) json.RawMessage {
 	return b
 }
 
+// genBigCollValue: a short head and tail over the small alphabet around a
+// long middle section of one of three families of distinct values (seeded
+// change C10t: a diff that gives up above a million matrix cells).
+func genBigCollValue(r *rand.Rand) json.RawMessage {
+	var l []string
+	for i, n := 0, r.IntN(4); i < n; i++ {
+		l = append(l, pick(r, "a", "a", "a", "b"))
+	}
+	fam, n := pick(r, "p", "q", "r"), pick(r, 300, 1030, 1100, 1100)
+	for i := 0; i < n; i++ {
+		l = append(l, fam+strconv.Itoa(i))
+	}
+	for i, n := 0, r.IntN(3); i < n; i++ {
+		l = append(l, pick(r, "a", "b"))
+	}
+	b, _ := json.Marshal(l)
+	return b
+}
+
 func (StoreCohScenario) GenCase(r *rand.Rand, prop string) interface{} {
 	c := &CohCase{}
 	c.Backend = pick(r, "mock", "badger")
 	c.Coll = chance(r, 50)
+	// one collection case in twenty-five has collections of hundreds of values
+	big := c.Coll && r.IntN(25) == 0
 	c.Trans = pick(r, "none", "id", "custom", "hide")
 	c.Default = chance(r, 40)
 	c.Workers = pick(r, 1, 2, 4)
@@ -96,12 +117,22 @@ func (StoreCohScenario) GenCase(r *rand.Rand, prop string) interface{} {
 	}
 	c.RaceGets = r.IntN(4)
 	nr := 1 + r.IntN(3)
+	if big {
+		nr, c.RaceGets = 1, r.IntN(2)
+	}
 	for ri := 0; ri < nr; ri++ {
 		var round [][]CohMut
 		nm := 1 + r.IntN(3)
+		if big {
+			nm = 1
+		}
 		for mi := 0; mi < nm; mi++ {
 			var muts []CohMut
-			for i, n := 0, 1+r.IntN(4); i < n; i++ {
+			nmut := 1 + r.IntN(4)
+			if big {
+				nmut = 2 + r.IntN(3)
+			}
+			for i, n := 0, nmut; i < n; i++ {
 				m := CohMut{Kind: pick(r, "create", "update", "update", "update", "delete"), ID: pick(r, cohIDs...), Y: r.IntN(2)}
 				if chance(r, 50) {
 					m.ID = "a"
@@ -119,7 +150,15 @@ func (StoreCohScenario) GenCase(r *rand.Rand, prop string) interface{} {
 					m.CommitErr = true
 				}
 				if m.Kind != "delete" {
-					if c.Coll {
+					if big {
+						// one id, created and then updated from one long
+						// collection to another
+						m.ID, m.Kind = "a", "update"
+						if i == 0 {
+							m.Kind = "create"
+						}
+						m.Val = genBigCollValue(r)
+					} else if c.Coll {
 						m.Val = genCollValue(r)
 					} else {
 						m.Val = genModelValue(r)
